@@ -16,6 +16,6 @@ one() {
   rm -rf $D /tmp/ev_seed_$s
 }
 export -f one
-ls seeded | grep -E '^C[0-9]+_[AB]$' | xargs -P $J -I{} bash -c 'one {}' | sort > /tmp/seedmatrix.out
+ls seeded | grep -E '^C[0-9]+_[A-D]$' | xargs -P $J -I{} bash -c 'one {}' | sort > /tmp/seedmatrix.out
 { echo "# Seeded changes vs. the check of their property (regenerate with tools/seedmatrix.sh)"; echo; echo '```'; cat /tmp/seedmatrix.out; echo '```'; } > seeded/RESULTS.md
 cat /tmp/seedmatrix.out
